@@ -43,7 +43,7 @@ Upd(st, g, res)  == Mk("live", g, NoHandle, st.held, res)
 CtorOK(nc, nr, n) == ~IsBig(nc) /\ ~IsBig(nr) /\ (nc = 0 <=> nr = 0) /\ nc * nr = n
 
 ConstructorOps == {"default", "with_capacity", "new", "init", "from_vec", "from_box"}
-DrainOps       == {"d_next", "d_next_back", "d_len", "d_drop", "d_nth", "d_nth_back", "d_count", "d_last", "d_collect", "d_rcollect", "d_fold", "d_rfold"}
+DrainOps       == {"d_next", "d_next_back", "d_len", "d_drop", "d_nth", "d_nth_back", "d_count", "d_last", "d_collect", "d_rcollect", "d_fold", "d_rfold", "d_for_each", "d_find"}
 
 Remaining(h) == SubSeq(h.items, h.f + 1, Len(h.items) - h.b)
 
@@ -78,7 +78,7 @@ ApplyHandle(st, op, a) ==
       [] op = "d_drop"      -> Mk(st.phase, st.grid, NoHandle, st.held, Unit)    \* the rest of the line is dropped
       \* the other Iterator / DoubleEndedIterator entry points of a drain mean what they mean for any iterator over the
       \* remaining items; items stepped over are consumed (dropped), never left behind
-      [] op = "d_nth"       -> IF a.n < n
+      [] op \in {"d_nth", "d_find"} -> IF a.n < n      \* (find: the predicate stops at its (n+1)-th invocation)
                                THEN Mk(st.phase, st.grid, [h EXCEPT !.f = @ + a.n + 1],
                                        Append(st.held, h.items[h.f + a.n + 1]), Some(h.items[h.f + a.n + 1]))
                                ELSE Mk(st.phase, st.grid, [h EXCEPT !.f = @ + n], st.held, None)
@@ -92,7 +92,7 @@ ApplyHandle(st, op, a) ==
                                THEN Mk(st.phase, st.grid, NoHandle, Append(st.held, h.items[Len(h.items) - h.b]), Some(h.items[Len(h.items) - h.b]))
                                ELSE Mk(st.phase, st.grid, NoHandle, st.held, None)
       \* fold / rfold hand every remaining item to a caller-supplied closure (which here keeps it)
-      [] op \in {"d_collect", "d_fold"} -> Mk(st.phase, st.grid, NoHandle, st.held \o Remaining(h), Ids(Remaining(h)))
+      [] op \in {"d_collect", "d_fold", "d_for_each"} -> Mk(st.phase, st.grid, NoHandle, st.held \o Remaining(h), Ids(Remaining(h)))
       [] op \in {"d_rcollect", "d_rfold"} -> LET rv == [i \in 1..n |-> Remaining(h)[n + 1 - i]] IN
                                Mk(st.phase, st.grid, NoHandle, st.held \o rv, Ids(rv))
 
